@@ -135,6 +135,7 @@ def run(ck, fb):
     _run0(ck, fb)
     r17f(ck, fb)
     r17g(ck, fb)
+    r17j(ck, fb)
 
 
 def _run0(ck, fb):
@@ -450,3 +451,63 @@ def r17g(ck, fb):
                        'simple_bind is sent with whatever password the form carried: username=alice&password= (and any user name that does not exist) '
                        'returns a console token when the directory permits unauthenticated binds', 'password tested non-empty before the bind')
     ck.floor('R17i', 'LDAP bind sites', n, 1)
+
+
+def r17j(ck, fb, R='R17j'):
+    ck.rule(R, 'a grant is exact: PathResource::match_url(path, method) == (entry is for all methods || entry.method == method) && (entry is for all '
+               'paths || entry.path == path, the empty path standing for "/"), decided as a truth table of the compiled function over its string '
+               'comparisons (every other string operation - prefix, suffix, contains, case folding - is outside the table and fails closed). '
+               'The role tables (R17b-R17d) are evaluated under exactly this reading; with prefix matching the base grant ("/rnacos", GET) of every '
+               'role would open every GET route below /rnacos/ to visitors')
+    from rn.absint import Ref, SymObj, BV, Opaque
+    from rn.tables import check_table
+    PRN = 'rnacos::user::permission::PathResource::'
+    b = ck.body(PRN + 'match_url', R)
+    am = ck.body(PRN + 'is_match_all_method', R)
+    ap = ck.body(PRN + 'is_match_all_path', R)
+    if not (b and am and ap):
+        return
+
+    def nm(i, v):
+        for _ in range(8):
+            if not isinstance(v, Ref):
+                break
+            v = v.obj if v.obj is not None else i.read_place(v.frame, v.place)
+        if isinstance(v, SymObj):
+            return v.name
+        if isinstance(v, Opaque) and isinstance(v.what, tuple) and v.what[0] == 'str':
+            return 'lit:' + str(v.what[1])
+        return repr(v)
+
+    def m_eq(i, fr, t, args):
+        return BV.const(1, int(i.env.atom('EQ[%s]' % ','.join(sorted(nm(i, a) for a in args[:2])), 'bool')))
+
+    def m_ne(i, fr, t, args):
+        return BV.const(1, 1 - int(i.env.atom('EQ[%s]' % ','.join(sorted(nm(i, a) for a in args[:2])), 'bool')))
+
+    def m_empty(i, fr, t, args):
+        return BV.const(1, int(i.env.atom('EMPTY[%s]' % nm(i, args[0]), 'bool')))
+    models = {
+        'std::cmp::PartialEq::eq': m_eq, 'std::cmp::PartialEq::ne': m_ne,
+        'std::cmp::impls::<impl std::cmp::PartialEq<&B> for &A>::eq': m_eq, 'std::cmp::impls::<impl std::cmp::PartialEq<&B> for &A>::ne': m_ne,
+        'core::str::traits::<impl std::cmp::PartialEq for str>::eq': m_eq,
+        'core::str::<impl str>::is_empty': m_empty,
+        am.name: lambda i, fr, t, args: BV.const(1, int(i.env.atom('ALLM', 'bool'))),
+        ap.name: lambda i, fr, t, args: BV.const(1, int(i.env.atom('ALLP', 'bool'))),
+    }
+
+    def oracle(a):
+        meth = a['ALLM'] or a.get('EQ[method,self.method]', False)
+        if a.get('EMPTY[path]', False):
+            p = a.get('EQ[lit:/,self.path]', False)
+        else:
+            p = a.get('EQ[path,self.path]', False)
+        return bool(meth and (a['ALLP'] or p))
+    allat = {'ALLM': [False, True], 'ALLP': [False, True], 'EQ[method,self.method]': [False, True], 'EMPTY[path]': [False, True],
+             'EQ[lit:/,self.path]': [False, True], 'EQ[path,self.path]': [False, True]}
+    check_table(ck, fb, R, 'match_url', b, lambda: [Ref(obj=SymObj('self')), Ref(obj=SymObj('path')), Ref(obj=SymObj('method'))], oracle, all_atoms=allat, call_models=models)
+    # the two "for all" tests compare with the empty string
+    for (x, fld) in ((am, 'method'), (ap, 'path')):
+        eqs = [s for s in x.sites if (s.callee or '').endswith('PartialEq::eq')]
+        ok = len(eqs) == 1 and cfg.origin_fields(x, eqs[0].args[0])[-1:] == [fld] and 'const()' in cfg.fmt_desc(cfg.describe_operand(x, eqs[0].args[1]))
+        ck.require(ok, R, '%s:empty-means-all' % x.name.split('::')[-1], x.where(), '%s is not "entry.%s is the empty string"' % (x.name.split('::')[-1], fld))
